@@ -81,7 +81,16 @@ async fn run_command(
         cmd.envs(envs);
     }
 
+    // The command runs in its own process group, and the whole group is killed if this future is
+    // dropped before the command exits (the tool runner drops it on timeout): a timed-out command
+    // must not keep mutating the workspace after the runner has returned and the workspace lock
+    // has been released.
+    #[cfg(unix)]
+    cmd.process_group(0);
+    cmd.kill_on_drop(true);
+
     let mut child = cmd.spawn()?;
+    let mut group_guard = KillGroupOnDrop(child.id());
     let stdout = child.stdout.take();
     let stderr = child.stderr.take();
 
@@ -89,6 +98,7 @@ async fn run_command(
     let stderr_fut = capture_stream(stderr, config, max_bytes);
     let status_fut = child.wait();
     let (stdout_capture, stderr_capture, status) = tokio::join!(stdout_fut, stderr_fut, status_fut);
+    group_guard.0 = None;
     let status = status?;
 
     let artifacts = json!({
@@ -102,6 +112,27 @@ async fn run_command(
         exit_code: status.code().unwrap_or(1),
         artifacts: Some(artifacts),
     })
+}
+
+/// Kills the process group of a still-running command when dropped (disarmed once it exited).
+struct KillGroupOnDrop(Option<u32>);
+
+impl Drop for KillGroupOnDrop {
+    fn drop(&mut self) {
+        #[cfg(unix)]
+        if let Some(pid) = self.0 {
+            use std::os::raw::c_int;
+
+            extern "C" {
+                fn kill(pid: i32, sig: c_int) -> c_int;
+            }
+
+            const SIGKILL: c_int = 9;
+            unsafe {
+                let _ = kill(-(pid as i32), SIGKILL);
+            }
+        }
+    }
 }
 
 struct StreamArtifactRef {
